@@ -7,6 +7,8 @@ def run(ctx):
     ctx.ensure_ppl()
     broken = ctx.prove(["PPLV.Props.C01"])
     quick = ctx.tier == "quick"
+    if not quick:
+        broken += ctx.leanchecker(["PPLV.Props.C01"])
     pc.run_poly(ctx, ops="c01", n_hist=1500 if quick else 40000, length=12 if quick else 30,
                 maxdim=3 if quick else 4)
     for b in broken:
